@@ -102,6 +102,15 @@ def extra_cases():
                 for jwk_header in (False, True):
                     for api in ("jws", "jwt"):
                         out.append({"op": "callable", "alg": alg, "returns": returns, "signed_by": signed_by, "jwk_header": jwk_header, "api": api})
+    # use / key_ops restrictions on encryption keys: the operation each side performs must be among the permitted ones
+    for alg, kind in JWE_OPS:
+        for opts in ({}, {"key_ops": ["wrapKey"]}, {"key_ops": ["unwrapKey"]}, {"key_ops": ["encrypt"]}, {"key_ops": ["decrypt"]}, {"key_ops": ["sign"]}, {"key_ops": ["verify", "sign"]},
+                     {"key_ops": ["deriveKey"]}, {"key_ops": ["wrapKey", "unwrapKey"]}, {"key_ops": ["encrypt", "decrypt"]}, {"key_ops": []}, {"use": "sig"}, {"use": "enc"},
+                     {"use": "enc", "key_ops": ["sign"]}):
+            for how in ("jwk", "options"):
+                if kind == "okp" and how == "jwk":
+                    continue            # the ECDH-ES algorithms take an OKP key as a Key object only
+                out.append({"op": "jwe_keyops", "alg": alg, "kind": kind, "opts": opts, "how": how})
     jwe_tokens = {"dir": ("dir", "A128CBC-HS256"), "A256KW": ("A256KW", "A128GCM")}
     for name, (alg, enc) in jwe_tokens.items():
         for allow in (["HS256"], ["HS256", "HS512"], [], ["RS256", "ES256"], "default", [alg], [enc], [alg, enc], ["HS256", alg, enc], ["A128KW", "A256GCM"]):
@@ -109,7 +118,45 @@ def extra_cases():
     return out
 
 
+JWE_OPS = [("A128KW", "oct16"), ("A256KW", "oct32"), ("A128GCMKW", "oct16"), ("dir", "oct16"), ("RSA-OAEP", "rsa"), ("RSA1_5", "rsa"), ("ECDH-ES", "ec"), ("ECDH-ES+A128KW", "ec"),
+           ("ECDH-ES", "okp")]
+_JK = {}
+
+
+def jwe_key(kind, opts, how):
+    from authlib.jose import JsonWebKey
+    if not _JK:
+        b = lambda x: base64.urlsafe_b64encode(x).rstrip(b"=").decode()
+        _JK["oct16"] = {"kty": "oct", "k": b(b"k" * 16)}
+        _JK["oct32"] = {"kty": "oct", "k": b(b"k" * 32)}
+        _JK["rsa"] = dict(JsonWebKey.generate_key("RSA", 2048, is_private=True).as_dict(is_private=True))
+        _JK["ec"] = dict(JsonWebKey.generate_key("EC", "P-256", is_private=True).as_dict(is_private=True))
+        _JK["okp"] = dict(JsonWebKey.generate_key("OKP", "X25519", is_private=True).as_dict(is_private=True))
+    d = {k: v for k, v in _JK[kind].items() if k != "kid"}
+    if how == "jwk":
+        return dict(d, **opts)
+    return JsonWebKey.import_key(d, dict(opts))
+
+
+def impl_jwe_keyops(c):
+    from authlib.jose import JsonWebEncryption
+    J = JsonWebEncryption()
+    hdr = {"alg": c["alg"], "enc": "A128GCM"}
+    def attempt(f):
+        try:
+            return "ok", f()
+        except Exception as e:
+            return type(e).__name__, None
+    enc, tok = attempt(lambda: J.serialize_compact(hdr, b"x", jwe_key(c["kind"], c["opts"], c["how"])))
+    if tok is None:
+        tok = J.serialize_compact(hdr, b"x", jwe_key(c["kind"], {}, "options"))
+    dec, _ = attempt(lambda: J.deserialize_compact(tok, jwe_key(c["kind"], c["opts"], c["how"])))
+    return {"encrypt": enc, "decrypt": dec}
+
+
 def impl_extra(c):
+    if c["op"] == "jwe_keyops":
+        return impl_jwe_keyops(c)
     from authlib.jose import JsonWebToken, JsonWebEncryption, jwt as default_jwt
     sec = b"0123456789abcdef0123456789abcdef"
     if c["op"] == "kidtype":
@@ -260,7 +307,7 @@ ERR = [(je.MissingAlgorithmError, "missing_algorithm"), (je.UnsupportedAlgorithm
 def impl(c):
     if c["op"] == "confusion":
         return impl_confusion(c)
-    if c["op"] in ("kidtype", "jwe_allow", "callable"):
+    if c["op"] in ("kidtype", "jwe_allow", "callable", "jwe_keyops"):
         return impl_extra(c)
     tok, header = make_token(c)
     arg = c["arg"]
@@ -328,7 +375,7 @@ def impl_confusion(c):
 
 
 def model_line(c):
-    if c["op"] in ("kidtype", "jwe_allow", "callable"):
+    if c["op"] in ("kidtype", "jwe_allow", "callable", "jwe_keyops"):
         return None
     if c["op"] == "confusion":
         return {"op": "oct_import", "raw": c["raw"]}
@@ -408,6 +455,20 @@ def oracle(c, out):
         if out["accepted"] and not ok_expected:
             v.append((f"header kid {c['hkid']!r} selected a key of the set with kids {c['kids']} ({c['form']}): no member has that kid", {"kind": "kid-type-confusion", "form": c["form"]}))
         return v
+    if c["op"] == "jwe_keyops":
+        fam = "dir" if c["alg"] == "dir" else "ecdh" if c["alg"].startswith("ECDH") else "wrap"
+        side_ops = {"dir": {"encrypt": {"encrypt"}, "decrypt": {"decrypt"}}, "wrap": {"encrypt": {"wrapKey"}, "decrypt": {"unwrapKey"}},
+                    # key agreement: RFC 7517 names deriveKey / deriveBits; the library asks for wrapKey on the sender's side
+                    "ecdh": {"encrypt": {"wrapKey", "deriveKey", "deriveBits"}, "decrypt": {"unwrapKey", "deriveKey", "deriveBits"}}}[fam]
+        opts = c["opts"]
+        for side in ("encrypt", "decrypt"):
+            permitted = opts.get("use") in (None, "enc") and ("key_ops" not in opts or bool(set(opts["key_ops"]) & side_ops[side]))
+            done = out[side] == "ok"
+            if done and not permitted:
+                v.append((f"{c['alg']}: {side}ion performed with a key restricted to {opts} (given through {c['how']})", {"kind": "restriction-ignored", "family": fam, "side": side}))
+            if not done and permitted and not (fam == "ecdh" and "key_ops" in opts and "wrapKey" not in opts["key_ops"] and side == "encrypt"):
+                v.append((f"{c['alg']}: {side}ion refused ({out[side]}) although the key's restriction {opts} permits it", {"kind": "refused-within-policy", "alg": c["alg"], "form": "jwe-" + side}))
+        return v
     if c["op"] == "callable":
         want = c["returns"] == "right" and c["signed_by"] == "right"
         if out["accepted"] and not want:
@@ -438,6 +499,8 @@ def oracle(c, out):
 
 
 def classify(c, out):
+    if c["op"] == "jwe_keyops":
+        return f"jwe_keyops/{c['alg']}/{out['encrypt']}/{out['decrypt']}"
     if c["op"] in ("kidtype", "jwe_allow", "callable"):
         return c["op"] + "/" + ("accepted" if out["accepted"] else "refused")
     if c["op"] == "confusion":
